@@ -159,7 +159,13 @@ def flush_rule(repo: Repo, rep: Report, rid: str) -> None:
                   "a non-bit field can be read without resetting the bit buffer: following bit-fields would continue a stale unit", rd.loc(c))
     rep.floor(rid, "reader non-bit read sites", len(reads), 1)
 
-    # generator mirror
+    # generator mirror: a rule on the shape of the source generator - where the compiled-reader fold interprets the generator it decides (the reset
+    # is then visible in what the generated readers do on bit-field runs interrupted by every other kind of field)
+    from .compiled import fold_decides
+
+    if fold_decides(repo, rep.tier):
+        rep.ok(rid, "compiler.py:shape:reset-guard", "the compiled-reader fold decides where the generator resets the bit reader", "", nontrivial=False)
+        return
     gf = repo.func("compiler.py", "_ReadSourceGenerator._generate_fields")
     gg = CFG(gf.node)
     lg = _field_loop(gg, "self.fields")
@@ -450,6 +456,9 @@ def default_substitution_rule(repo: Repo, rep: Report, rid: str) -> None:
 
 
 def run(repo: Repo, rep: Report, tier: str) -> None:
+    from .compiled import compiled_fold_rule
+
+    compiled_fold_rule(repo, rep, "C02.R13", tier)
     offset_pad_rule(repo, rep, "C02.R4")
     leb128_termination_rule(repo, rep, "C02.R5")
     padding_rule(repo, rep, "C02.R1")
